@@ -506,12 +506,12 @@ def ekern_to_krn(
             ekern_to_krn_wrapper(ekern_file, output_file)
         ```
     """
-    with open(input_file, 'r') as file:
+    with open(input_file, 'r', encoding='utf-8') as file:
         content = file.read()
 
     kern_content = get_kern_from_ekern(content)
 
-    with open(output_file, 'w') as file:
+    with open(output_file, 'w', encoding='utf-8') as file:
         file.write(kern_content)
 
 
@@ -563,5 +563,5 @@ def kern_to_ekern(
     exporter = Exporter()
     exported_ekern = exporter.export_string(document, export_options)
 
-    with open(output_file, 'w') as file:
+    with open(output_file, 'w', encoding='utf-8') as file:
         file.write(exported_ekern)
